@@ -146,6 +146,20 @@ CHECKS = {
   "design_ref": "DESIGN.md §5 C14", "note": "Trusted: Lean kernel; translator facts; kernel isolation between instances is measured.",
   "technique": "Lean 4 proofs (channel FIFO by induction) + regenerated capacity/global-state facts + multi-Watcher differential scenarios",
  },
+ "C20": {
+  "text": "Theorems (all inputs): splitLines is injective (lines concatenate to text+newline); any opcode list passing the "
+          "executable check validOps (contiguous tiling of both texts from (0,0) to the ends, equal ranges really equal, "
+          "delete/insert ranges empty on the other side) applied to the first text yields the second; an all-equal valid list "
+          "implies the texts are equal; the context trimming leaves at most n lines at the start, the end and both sides of a "
+          "split; the hunk-header range format. That the matcher's opcodes always satisfy validOps is validated per case, not "
+          "proved: the Lean checker accepts the opcodes of EVERY generated pair and those opcodes equal the implementation's "
+          "(exhaustive over a 3-letter alphabet up to length 4, 5 in thorough; random long sequences with repeats). Tie: "
+          "diff.go is copied verbatim at check time into a scratch package; blocks, opcodes, groups and final text compared "
+          "with the model; an independent Go monitor applies the textual diff (headers agree with bodies, <= 3 context lines, "
+          "result = second text, empty iff equal after TrimSpace). DiffMatch: partial (regexp/placeholders exercised only).",
+  "design_ref": "DESIGN.md §5 C20", "note": "Trusted: Lean kernel; scratch-copy mechanism (bin/props.build_scratch); strings.TrimSpace, regexp, fmt are standard library.",
+  "technique": "Lean 4 proof of edit-script correctness from a proved-sufficient executable check + per-case validation + exhaustive differential correspondence",
+ },
  "C11": {
   "text": "Theorems: the ten ring slots are exactly the last ten stored (cookie, old name) pairs (window invariant, by "
           "induction over any number of stores); a lookup finds the pair of its own move if it is among the last ten and "
